@@ -10,10 +10,10 @@ pub const PAT_ALPHA: &[u8] = b"abA$\\ !^'c";
 pub fn pick<T: Clone>(rng: &mut SplitMix, xs: &[T]) -> T {
     xs[rng.below(xs.len() as u64) as usize].clone()
 }
-/// a few non-ASCII characters (case pairs, a normalisable letter, a character outside the
+/// a few non-ASCII characters (case pairs, a normalisable letter, sigma and final sigma, a character outside the
 /// normalisation blocks): one string in eight gets some of them mixed in, which sends it through
 /// the code-point representation of the matcher instead of the ASCII one
-pub const NON_ASCII: &[char] = &['é', 'É', 'ß', 'ä', 'Ä', 'ñ', '漢'];
+pub const NON_ASCII: &[char] = &['é', 'É', 'ß', 'ä', 'Ä', 'ñ', '漢', 'σ', 'ς'];
 pub fn rstr(rng: &mut SplitMix, alpha: &[u8], lo: u64, hi: u64) -> String {
     let n = lo + rng.below(hi - lo + 1);
     let exotic = n > 0 && rng.below(8) == 0;
@@ -132,6 +132,10 @@ fn haystacks_for(text: &str, out: &mut Vec<String>) {
             // substring kind has to find at its very end
             format!(" {accented}"),
             format!("  {core}"),
+            // a lower-case letter that still has a case folding (final sigma folds to sigma): equal
+            // to the needle only where the matcher folds lower-case letters too
+            core.replace('σ', "ς"),
+            format!("{}a", core.replace('σ', "ς")),
         ] {
             if !c.is_empty() && c.chars().count() <= 12 && !out.contains(&c) {
                 out.push(c);
